@@ -154,6 +154,33 @@ NEEDS5 = {
  "C18A": ("src/arrival/curve.rs: Curve::extrapolate stops growing the cached prefix at 1024 entries", "a window covering more than 1024 activations of an auto-extrapolating curve: the fall-back composition over-counts by one; bounds stay safe but are no longer attained (smallest: analysed cost 342 against curve [1,2,4])"),
 }
 
+NEEDS6 = {
+ "C08A": ("src/supply/mod.rs default service_time: 128-round fast path followed by doubling and bisection; after the 128th round the freshly jumped-to t is not probed", "a user-defined supply (default inverse) whose jump loop needs exactly 128 rounds: budget 1, period 32, demand 32 (1056 instead of 1055)"),
+ "C09A": ("src/supply/periodic.rs provided_service: number of full periods computed in f64", "window lengths beyond 2^53 one short of a multiple of the period: one unit of service too many"),
+ "C09B": ("src/supply/mod.rs default service_time: jump-ahead loop capped at 1000 rounds, falls through silently", "sparse supplies through the default inverse: budget 1, period 175, demand 173; (1,600) demand 1"),
+ "C10A": ("src/arrival/mod.rs divide_with_ceil in f64", "delta + jitter beyond 2^53: Periodic / Sporadic one arrival too few"),
+ "C10B": ("src/arrival/curve.rs From<Sporadic> for Curve: closing entry (T*n + eps, n+1) appended after 500 jobs, forgetting the jitter", "jitter > 0 and a window holding more than 500 jobs (T=1, J=40: delta 461)"),
+ "C11A": ("src/arrival/mod.rs brute_force_steps_iter (= default steps_iter): gallop and bisect after 64 step-free ticks, bisection predicate finds the last step of a window only", "a model relying on the default steps_iter, a step-free stretch longer than 64, then two steps in one gallop window (delta-min [1, 66])"),
+ "C11B": ("src/arrival/curve.rs ExtrapolatingCurve StepsIter::advance: burst-skipping loop bounded by a 16-job look-ahead", "runs of more than 16 equal delta-min entries (16 simultaneous arrivals): steps yielded twice"),
+ "C12A": ("src/arrival/arrival_curve_prefix.rs lookup: partition_point with < instead of <= once a prefix has more than 32 steps", "a prefix object with 33 or more steps, queried exactly at a step position"),
+ "C12B": ("src/arrival/arrival_curve_prefix.rs from_arrival_bound_until: .take(1024) steps while keeping the requested horizon", "more than 1024 steps inside the horizon (Periodic(1), horizon 1025)"),
+ "C13A": ("src/arrival/curve.rs ExtrapolatingCurve StepsIter: cache topped up in batches of 256 with an off-by-one guard + 256-entry warm-up (two sites)", "at least 171..258 next() calls on the iterator that runs off the cache end: one step is skipped; depends on query history"),
+ "C13B": ("src/arrival/curve.rs extrapolate_next: split range capped at 16", "prefixes of 18 or more entries whose late entries carry the information ([1..17, 36])"),
+ "C14A": ("src/wcet/curve.rs extrapolate_next: ternary search over splits (assumes unimodality) for n >= 130", "a measured prefix of about 46+ entries with rare expensive jobs, queried at n >= 131: bound raised above the plain curve, not monotone"),
+ "C14B": ("src/wcet/curve.rs Curve::cost_of_jobs: repetition count through u32", "a plain cost curve queried at n >= len * 2^32"),
+ "C16A": ("src/demand/mod.rs default service_needed_by_n_jobs: select_nth_unstable_by with the pivot of an ascending layout for more than 256 jobs", "more than 256 jobs in the interval, two distinct costs, 0 < n < jobs"),
+ "C16B": ("src/demand/rbf.rs RBF::service_needed_by_n_jobs override: BinaryHeap::with_capacity(max_jobs)", "a job limit of 2^60 or more ('no limit'): capacity-overflow panic; 2^34..2^60: allocation failure aborts the process"),
+ "C17A": ("src/fixed_point.rs search_with_offset: gives up after 10 000 rounds", "a single search needing more than 10 000 rounds (a burst of 12 000 unit jobs one tick apart): Err for the base, Ok for harder systems that leap"),
+ "C17B": ("src/fixed_point.rs search_with_offset: accepted as converged once the bound moves by at most one millionth of the assumed value", "time values of 10^6 and more with small steps near the fixed point"),
+ "C19A": ("src/edf/fully_preemptive.rs: returns Ok(L) when the busy window exceeds 100 000 ticks", "a busy window longer than 100 000 ticks: safe, but disagrees with LP-EDF(segments 1) / floating-NP EDF(1)"),
+ "C19B": ("src/fixed_priority/floating_nonpreemptive.rs: .take(1 << 16) on the search space", "more than 65 536 releases of the analysed task in one busy window with the worst one late (family hp (2g,3g), tua (g-1,3g-2), g = 65 538)"),
+}
+
+def rounds6():
+    for key, val in sorted(NEEDS6.items()):
+        name = f"{key[:3]}-{'K' if key[3] == 'A' else 'L'}"
+        yield key, val, f"/tmp/wt/out6-{key[:3]}", [f"/tmp/seedres/R6{key}.recheck.txt", f"/tmp/seedres/R6{key}.quick.txt"], f"/tmp/seedres/R6{key}.quick.txt", name, 6
+
 def rounds5():
     for key, val in sorted(NEEDS5.items()):
         name = f"{key[:3]}-{'I' if key[3] == 'A' else 'J'}"
@@ -168,7 +195,7 @@ def main():
     root = "/verif/seeded"
     os.makedirs(root, exist_ok=True)
     index = []
-    for key, (change, needs), out, cands, basefile, name, rnd in list(rounds()) + list(rounds4()) + list(rounds5()):
+    for key, (change, needs), out, cands, basefile, name, rnd in list(rounds()) + list(rounds4()) + list(rounds5()) + list(rounds6()):
         pid, v = key[:3], key[3]
         res = None
         # the newest confirmation run wins
@@ -199,11 +226,11 @@ def main():
         suite = re.findall(r"suite with change:\n(test result: [^\n]*)\n(test result: [^\n]*)", base)
         caught, mach, thorough_only = [], [], []
         for line in txt.splitlines():
-            m = re.match(r"(C\d\d) exit=(\d) violations=(\d+) keys: (.*)", line)
+            m = re.match(r"(C\d\d) exit=(\d+) violations=(\d+) keys: (.*)", line)
             if m:
                 if m.group(2) == "1":
                     caught.append({"check": m.group(1), "violation_lines": int(m.group(3)), "keys": m.group(4).split()})
-                elif m.group(2) == "2":
+                elif m.group(2) != "0":
                     mach.append(m.group(1))
         th = basefile.replace(".quick.txt", ".thorough.txt")
         if os.path.exists(th):
